@@ -153,6 +153,26 @@ def run(ctx):
         n = rng.choice([None, 0, 1, 2, 3, la, le, max(0, la - (s or 0)), max(0, le - (es or 0)), -1])
         pad = None if rng.random() < 0.5 else ((rng.randint(0, 3), rng.randint(0, 2)), (rng.randint(0, 3), rng.randint(0, 2)))
         run_case(ctx, W, np, a, e, na, ne, s, es, n, dtype, reqs, pad=pad)
+    # ---- windows given as narrow NumPy integer scalars on waveforms longer than those types can count -----------
+    big_a = [[(i * 7 + 3) % 8] for i in range(300)]
+    big_e = [[(i * 5 + 1) % 8] for i in range(300)]
+    wa_big = W.from_lines(np.array(big_a, np.uint8)); we_big = W.from_lines(np.array(big_e, np.uint8))
+    for s0, es0, n0 in ((5, 250, 10), (250, 5, 10), (200, 200, 100), (200, 0, 50), (0, 255, 45), (120, 127, 20), (255, 255, 1), (100, 100, 250)):
+        for T in (np.uint8, np.int8, np.int16, np.uint16, np.int64):
+            info = np.iinfo(T)
+            if not all(info.min <= v <= info.max for v in (s0, es0, n0)):
+                continue
+            o = outcome(lambda: wa_big.test(we_big, start_sample=T(s0), expected_start_sample=T(es0), sample_count=T(n0)))
+            want = expected(big_a, big_e, 1, 1, s0, es0, n0)
+            if o[0] == "ok":
+                got = ("ok", [(int(f.sample_index), int(f.expected_sample_index), int(f.signal_index), int(f.actual_state), int(f.expected_state)) for f in o[1].failures])
+            else:
+                got = ("err", o[1])
+            ctx.case(("npint-window", s0, es0, n0, T.__name__))
+            if got != want:
+                ctx.violation(what="test window given as NumPy integer scalars", window=(repr(T(s0)), repr(T(es0)), repr(T(n0))), observed=str(got)[:300],
+                              required=str(want)[:300])
+                break
     # ---- values that are not digital states, in particular the SAME invalid value on both sides ----------------
     for _ in range(150 if ctx.quick else 5000):
         na = rng.randint(1, 3)
